@@ -291,7 +291,7 @@ impl Check for C20 {
         crate::c20x::finding_key(c, v)
     }
     fn rule() -> &'static str {
-        "two kinds of runs: (i) a byte string split into 1-6 volumes (empty ones included), each a scripted short-read source, driven by a random history of up to 100 read(n)/seek(Start|Current|End) operations and compared step by step with a Cursor over the concatenation; (ii) a generated zip archive (nested dirs, hostile names, duplicates, empty members) extracted with generated glob patterns into a sandbox whose parent and siblings are scanned afterwards; non-trivial = more than one volume and more than one op / at least one member; distinct = hash of (volume sizes, #ops) or (member names, globs)"
+        "two kinds of runs: (i) a byte string split into 1-6 volumes (empty ones included), each a scripted short-read source, driven by a random history of up to 100 read(n)/seek(Start|Current|End) operations and compared step by step with a Cursor over the concatenation; (ii) a generated zip archive (nested dirs, hostile names, duplicates, empty members) extracted with generated glob patterns into a sandbox whose parent and siblings are scanned afterwards; one extraction run in six is a cancel history instead (optionally an earlier successful request, then a request whose in-memory archive source raises the cancel flag after k permille of the archive have been read, then the same request again into the same directory: whatever is reported must exist with the member's bytes, the repeated request must report every requested member), one in twelve is cancelled before it starts; non-trivial = more than one volume and more than one op / at least one member; distinct = hash of (volume sizes, #ops) or (member names, globs)"
     }
     fn assumptions() -> Vec<&'static str> {
         vec![
